@@ -14,7 +14,6 @@ package c23
 import (
 	"bytes"
 	"crypto/ecdsa"
-	"crypto/elliptic"
 	"crypto/sha256"
 	"encoding/json"
 	"fmt"
@@ -100,7 +99,8 @@ func (k *key) coqFull() string {
 
 type pool struct {
 	keys   []*key
-	byName map[string]*key // hex(ser)|ty -> pool key
+	byName map[string]*key   // hex(ser)|ty -> pool key
+	first  map[string][]*key // first 4 serialized bytes -> pool keys
 }
 
 func (p *pool) id(k *key) string { return fmt.Sprintf("%x|%d|%d|%s|%s", k.ser, k.ty, k.curve, k.x, k.y) }
@@ -112,6 +112,12 @@ func (p *pool) add(k *key) *key {
 	k.name = fmt.Sprintf("pk%d", len(p.keys))
 	p.keys = append(p.keys, k)
 	p.byName[p.id(k)] = k
+	if p.first == nil {
+		p.first = map[string][]*key{}
+	}
+	if len(k.ser) >= 4 {
+		p.first[string(k.ser[:4])] = append(p.first[string(k.ser[:4])], k)
+	}
 	return k
 }
 
@@ -121,6 +127,48 @@ func (p *pool) coq(k *key) string {
 		return q.name
 	}
 	return k.coqFull()
+}
+
+// cb prints a byte string as a Coq term of type bytes, writing every occurrence of a pool key's
+// serialization as `pk_ser pkN` (same bytes, far fewer literals for coqc to elaborate).
+func (p *pool) cb(b []byte) string {
+	if len(b) < 20 || len(p.keys) == 0 {
+		return hx.CoqBytes(b)
+	}
+	var segs []string
+	lit := 0
+	flush := func(end int) {
+		if end > lit {
+			segs = append(segs, hx.CoqBytes(b[lit:end]))
+		}
+	}
+	for i := 0; i < len(b); {
+		var hit *key
+		if i+4 <= len(b) {
+			for _, k := range p.first[string(b[i:i+4])] {
+				if i+len(k.ser) <= len(b) && bytes.Equal(b[i:i+len(k.ser)], k.ser) {
+					hit = k
+					break
+				}
+			}
+		}
+		if hit == nil {
+			i++
+			continue
+		}
+		flush(i)
+		segs = append(segs, "pk_ser "+hit.name)
+		i += len(hit.ser)
+		lit = i
+	}
+	flush(len(b))
+	if len(segs) == 1 {
+		if strings.HasPrefix(segs[0], "pk_ser") {
+			return "(" + segs[0] + ")"
+		}
+		return segs[0]
+	}
+	return "(" + strings.Join(segs, " ++ ") + ")"
 }
 
 func (p *pool) coqKeys(ks []*key) string {
@@ -235,10 +283,10 @@ func hashH(prog []byte) []byte {
 
 func keth(b []byte) []byte { return ethcrypto.Keccak256(b)[12:] }
 
-func coqTab(tab [][2][]byte) string {
+func (p *pool) coqTab(tab [][2][]byte) string {
 	var s []string
 	for _, e := range tab {
-		s = append(s, fmt.Sprintf("(%s, %s)", hx.CoqBytes(e[0]), hx.CoqBytes(e[1])))
+		s = append(s, fmt.Sprintf("(%s, %s)", p.cb(e[0]), hx.CoqBytes(e[1])))
 	}
 	return hx.CoqList(s)
 }
@@ -333,9 +381,10 @@ type input struct {
 }
 
 type buildOp struct {
-	Op string `json:"op"` // num | bytes | op
+	Op string `json:"op"` // num | bytes | op | rep (V repeated N times, printed as `repeat` in Coq)
 	V  uint64 `json:"v,omitempty"`
 	D  string `json:"d,omitempty"`
+	N  int    `json:"n,omitempty"`
 }
 
 type drv struct {
@@ -354,6 +403,8 @@ func runBuilder(ops []buildOp) (out []byte, panicked bool) {
 				b.PushNum(uint16(o.V))
 			case "bytes":
 				b.PushBytes(hx.UnHex(o.D))
+			case "rep":
+				b.PushBytes(bytes.Repeat([]byte{byte(o.V)}, o.N))
 			default:
 				b.PushOpCode(neovm.OpCode(byte(o.V)))
 			}
@@ -371,6 +422,8 @@ func coqOps(ops []buildOp) string {
 			s = append(s, fmt.Sprintf("BNum %d", o.V))
 		case "bytes":
 			s = append(s, "BBytes "+hx.CoqBytes(hx.UnHex(o.D)))
+		case "rep":
+			s = append(s, fmt.Sprintf("BBytes (repeat %d (N.to_nat %d))", byte(o.V), o.N))
 		default:
 			s = append(s, fmt.Sprintf("BOp %d", o.V))
 		}
@@ -416,6 +469,34 @@ func (d *drv) doBuild(ops []buildOp) {
 			c.Fail("push-readback", "data pushed by the builder is not what the parser reads back", in, fmt.Sprint(err, len(got)), "the pushed strings")
 		}
 	}
+}
+
+// doBuildBig: PushBytes of n equal bytes followed by PushNum(v); the long run is written as
+// `repeat` in the Coq terms (a 65536-element list literal overflows coqc's parser stack).
+func (d *drv) doBuildBig(v byte, n int, num uint64) {
+	c := d.c
+	c.Eval()
+	ops := []buildOp{{Op: "rep", V: uint64(v), N: n}, {Op: "num", V: num}}
+	in := input{Kind: "buildbig", Ops: ops}
+	out, p := runBuilder(ops)
+	tail, _ := runBuilder(ops[1:])
+	if p || len(out) < n+len(tail) {
+		c.Fail("panic:ProgramBuilder", "pushing a long string panicked", in, nil, nil)
+		return
+	}
+	hdr := out[:len(out)-n-len(tail)]
+	rep := fmt.Sprintf("repeat %d (N.to_nat %d)", v, n)
+	c.Count("build:big")
+	c.Nontrivial(fmt.Sprint("b", ops))
+	c.Case(fmt.Sprintf("CBuild %s (Some (%s ++ %s ++ %s))", coqOps(ops), hx.CoqBytes(hdr), rep, hx.CoqBytes(tail)), in)
+	// the parser side: GetParamInfo over the push alone
+	c.Eval()
+	sigs, err := program.GetParamInfo(out[:len(hdr)+n])
+	if err != nil || len(sigs) != 1 || !bytes.Equal(sigs[0], out[len(hdr):len(hdr)+n]) {
+		c.Fail("push-readback", "a long pushed string does not read back", in, fmt.Sprint(err, len(sigs)), "the pushed string")
+		return
+	}
+	c.Case(fmt.Sprintf("CParam (%s ++ %s) (ParOk [%s])", hx.CoqBytes(hdr), rep, rep), in)
 }
 
 // ---------- sorting ----------
@@ -505,7 +586,7 @@ func (d *drv) dtab(prog []byte) (string, int) {
 		if p2, _ := hx.Recover(func() { k = keyOf(pk) }); p2 {
 			continue
 		}
-		items = append(items, fmt.Sprintf("(%s, %s)", hx.CoqBytes(b), d.p.coq(k)))
+		items = append(items, fmt.Sprintf("(%s, %s)", d.p.cb(b), d.p.coq(k)))
 	}
 	return hx.CoqList(items), len(items)
 }
@@ -557,10 +638,10 @@ func (d *drv) doInfo(prog []byte, kind string) infoRes {
 			c.Fail("accepted-bad-params", "a script with an invalid threshold or key count was accepted", in,
 				map[string]interface{}{"m": r.m, "n": n}, "1 <= m <= n, 2 <= n <= 16 (or one key, m = 1, CHECKSIG)")
 		}
-		c.Case(fmt.Sprintf("CInfo %s %s (POk %s %d)", hx.CoqBytes(prog), tab, d.p.coqKeys(r.keys), r.m), in)
+		c.Case(fmt.Sprintf("CInfo %s %s (POk %s %d)", d.p.cb(prog), tab, d.p.coqKeys(r.keys), r.m), in)
 	} else {
 		c.Count("info-result:" + r.err)
-		c.Case(fmt.Sprintf("CInfo %s %s (PErr %s)", hx.CoqBytes(prog), tab, r.err), in)
+		c.Case(fmt.Sprintf("CInfo %s %s (PErr %s)", d.p.cb(prog), tab, r.err), in)
 	}
 	if len(prog) > 3 && (nt > 0 || kind != "random") {
 		c.Nontrivial("i" + in.Prog)
@@ -592,7 +673,7 @@ func (d *drv) doSingle(k *key) {
 	c.Count("single:" + k.kind)
 	c.Nontrivial("1" + in.Keys[0])
 	c.Sample(map[string]interface{}{"kind": "single:" + k.kind, "key": in.Keys[0], "program": hx.Hex(prog)})
-	c.Case(fmt.Sprintf("CSingle %s (Some %s)", d.p.coq(k), hx.CoqBytes(prog)), in)
+	c.Case(fmt.Sprintf("CSingle %s (Some %s)", d.p.coq(k), d.p.cb(prog)), in)
 	r := d.doInfo(prog, "built-single")
 	if !(r.ok && r.m == 1 && len(r.keys) == 1 && sameSers(r.keys, []*key{k}) && keypair.ComparePublicKey(r.keys[0].pub, k.pub)) {
 		c.Fail("parse-build-single", "the single-key script does not parse back to its key with threshold 1", in,
@@ -631,7 +712,7 @@ func (d *drv) doMulti(ks []*key, m int64) {
 		}
 	} else {
 		c.Count("multi:built")
-		c.Case(fmt.Sprintf("CMulti %s %s (BOk %s)", d.p.coqKeys(ks), hx.CoqZ(m), hx.CoqBytes(prog)), in)
+		c.Case(fmt.Sprintf("CMulti %s %s (BOk %s)", d.p.coqKeys(ks), hx.CoqZ(m), d.p.cb(prog)), in)
 		if !valid {
 			c.Fail("bad-params-built", "ProgramFromMultiPubKey built a script for an invalid threshold or key count", in, hx.Hex(prog), "error")
 		}
@@ -679,7 +760,7 @@ func (d *drv) doMulti(ks []*key, m int64) {
 		}
 		c.Count("perm")
 		if t == 0 {
-			c.Case(fmt.Sprintf("CMulti %s %s (BOk %s)", d.p.coqKeys(perm), hx.CoqZ(m), hx.CoqBytes(p2)), in2)
+			c.Case(fmt.Sprintf("CMulti %s %s (BOk %s)", d.p.coqKeys(perm), hx.CoqZ(m), d.p.cb(p2)), in2)
 		}
 	}
 }
@@ -799,7 +880,7 @@ func (d *drv) doAddrPub(k *key) {
 		ktab = append(ktab, [2][]byte{k.ser[2:], keth(k.ser[2:])})
 	}
 	c.Count("addrpub:" + k.kind)
-	c.Case(fmt.Sprintf("CAddrPub %s %s %s (AOk %s)", d.p.coq(k), coqTab(htab), coqTab(ktab), hx.CoqBytes(a[:])), in)
+	c.Case(fmt.Sprintf("CAddrPub %s %s %s (AOk %s)", d.p.coq(k), d.p.coqTab(htab), d.p.coqTab(ktab), hx.CoqBytes(a[:])), in)
 }
 
 func (d *drv) doAddrMulti(ks []*key, m int64, prog []byte, built bool) {
@@ -829,14 +910,14 @@ func (d *drv) doAddrMulti(ks []*key, m int64, prog []byte, built bool) {
 	}
 	if err != nil {
 		c.Count("addrmulti:rejected")
-		c.Case(fmt.Sprintf("CAddrMulti %s %s %s AErrParam", d.p.coqKeys(ks), hx.CoqZ(m), coqTab(htab)), in)
+		c.Case(fmt.Sprintf("CAddrMulti %s %s %s AErrParam", d.p.coqKeys(ks), hx.CoqZ(m), d.p.coqTab(htab)), in)
 		return
 	}
 	c.Count("addrmulti:ok")
 	if built && !bytes.Equal(a[:], hashH(prog)) {
 		c.Fail("address-not-script-hash", "the multi-signature address is not the hash of the m-of-n script", in, a.ToHexString(), hx.Hex(hashH(prog)))
 	}
-	c.Case(fmt.Sprintf("CAddrMulti %s %s %s (AOk %s)", d.p.coqKeys(ks), hx.CoqZ(m), coqTab(htab), hx.CoqBytes(a[:])), in)
+	c.Case(fmt.Sprintf("CAddrMulti %s %s %s (AOk %s)", d.p.coqKeys(ks), hx.CoqZ(m), d.p.coqTab(htab), hx.CoqBytes(a[:])), in)
 }
 
 func (d *drv) doAddrBook(ks []*key) {
@@ -847,7 +928,8 @@ func (d *drv) doAddrBook(ks []*key) {
 	var err error
 	p, msg := hx.Recover(func() { a, err = types.AddressFromBookkeepers(pubs(ks)) })
 	var htab, ktab [][2][]byte
-	for m := 1; m <= len(ks); m++ {
+	// hash table: the scripts for the thresholds next to two thirds (the model has to pick the right one)
+	for m := len(ks)*2/3 - 1; m <= len(ks)*2/3+2; m++ {
 		if pr, e, pp, _ := buildMulti(ks, m); e == nil && !pp {
 			htab = append(htab, [2][]byte{pr, hashH(pr)})
 		}
@@ -859,7 +941,7 @@ func (d *drv) doAddrBook(ks []*key) {
 	}
 	c.Count(fmt.Sprintf("addrbook:n<=%d", bucket(len(ks))))
 	c.Nontrivial("B" + strings.Join(in.Keys, ","))
-	head := fmt.Sprintf("CAddrBook %s %s %s", d.p.coqKeys(ks), coqTab(htab), coqTab(ktab))
+	head := fmt.Sprintf("CAddrBook %s %s %s", d.p.coqKeys(ks), d.p.coqTab(htab), d.p.coqTab(ktab))
 	switch {
 	case p:
 		c.Count("addrbook:panic")
@@ -1151,6 +1233,8 @@ func (d *drv) replay(in input) {
 	switch in.Kind {
 	case "build":
 		d.doBuild(in.Ops)
+	case "buildbig":
+		d.doBuildBig(byte(in.Ops[0].V), in.Ops[0].N, in.Ops[1].V)
 	case "sort":
 		d.doSort(d.keysFromSers(in.Keys))
 	case "single":
@@ -1211,8 +1295,8 @@ func Run(c *hx.Ctx) {
 	for i, n := 0, c.N(120, 1200); i < n; i++ {
 		d.doBuild(d.randBuildOps())
 	}
-	d.doBuild([]buildOp{{Op: "bytes", D: hx.Hex(c.Bytes(65535))}})
-	d.doBuild([]buildOp{{Op: "bytes", D: hx.Hex(c.Bytes(65536))}, {Op: "num", V: 300}})
+	d.doBuildBig(byte(c.Intn(256)), 65535, uint64(c.Intn(65536)))
+	d.doBuildBig(byte(c.Intn(256)), 65536+c.Intn(3), uint64(c.Intn(65536)))
 	// 3. sorting, including duplicates, twins and more than 16 keys
 	for i, n := 0, c.N(100, 1000); i < n; i++ {
 		sz := []int{0, 1, 2, 2, 3, 4, 5, 8, 12, 13, 16, 17, 24}[c.Intn(13)]
